@@ -71,8 +71,16 @@ def check(ctx):
                 if m_call(t2, name='from_residual') is not None and contains(t2, lambda x: strip_sites(x) == strip_sites(v)):
                     used_try = True
             unwraps = [1 for bi2, c2, t2 in bb.calls() if c2 is not None and c2.name in ('unwrap', 'expect', 'unwrap_or', 'unwrap_or_default', 'unwrap_or_else') and contains(tb.call_args(bi2)[0], lambda x: strip_sites(x) == strip_sites(v))]
-            if used_try and not unwraps:
-                ctx.ok('C17.4', site, 'a refused request (too short) is propagated with `?`')
+            mapped = False
+            if not used_try and not unwraps:
+                # `ctor(..).map(|salt| ..)` / `and_then` handed back as the result: the Err of the constructor is the Err of the function
+                from .. import errflow
+                try:
+                    mapped = errflow.classify(F, bb, tb, bi)[0] == 'propagate'
+                except Exception:
+                    mapped = False
+            if (used_try or mapped) and not unwraps:
+                ctx.ok('C17.4', site, 'a refused request (too short) is propagated (`?`, or the constructor\'s Result mapped and returned)')
             else:
                 ctx.fail('C17.4', site, 'the refusal of Salt::%s is not propagated (unwrap/clamp instead of `?`)' % c.name, key='C17.4|propagate|' + c.name)
         else:
@@ -87,6 +95,16 @@ def check(ctx):
             continue
         etb = TermBuilder(F, eb)
         rt = strip_sites(detry(etb.return_term()))
+        def expand_map(t, depth=0):
+            # r.map(|v| f(v)) / r.and_then(..) read as f(payload of r): the success value, failures handed on
+            if not isinstance(t, tuple) or not t or depth > 3:
+                return t
+            if t[0] == 'call' and call_name(t) in ('map', 'and_then') and len(t[2]) == 2 and t[2][1][0] == 'closure':
+                cv = closure_value(t[2][1], {('param', 2): strip_sites(detry(t[2][0]))})
+                if cv is not None:
+                    return expand_map(strip_sites(detry(cv)), depth + 1)
+            return tuple(expand_map(x, depth) if isinstance(x, tuple) else x for x in t)
+        rt = expand_map(rt)
         want = [x for x in walk(rt) if isinstance(x, tuple) and x and x[0] == 'call' and call_name(x) == ctor and CALLEES.get(x[1]) is not None and CALLEES[x[1]].is_method('Salt', ctor)]
         inst_ok = [x for x in want if len(x[2]) == 2 and x[2][0] == P2 and x[2][1] == P3]
         asi = [x for x in walk(rt) if isinstance(x, tuple) and x and x[0] == 'call' and call_name(x) == 'add_salt_instance']
